@@ -351,7 +351,8 @@ F_addr(t) ==   \* helping.rs:203 active_addr.store(ptr, SeqCst)
 F_ctrl(t) ==   \* helping.rs:209 control.swap(gen, SeqCst)
   /\ PC(t) = "F_ctrl"
   /\ sh' = [sh EXCEPT !.ctrl[MY(t)] = GenV(L(t).gen)]
-  /\ LET wrapped == L(t).gen = 0 IN
+  \* (seeded model bug "wrap_not_detected" = seeded change g13: the node is never given up, the generations repeat)
+  /\ LET wrapped == L(t).gen = 0 /\ Bug # "wrap_not_detected" IN
      IF wrapped /\ WrapMode = "code"
      THEN Set(t, Step1([L(t) EXCEPT !.pc = "X_res", !.after = "mid"]))
      ELSE Set(t, Step1([L(t) EXCEPT !.pc = "F_cand", !.disc = (@ \/ wrapped)]))
